@@ -363,3 +363,6 @@ func gateReport() {
 		fmt.Printf("VRT-SCHEDULE gates=%d followed=%d skipped=%d\n", len(gates), gfollowed, gskipped)
 	}
 }
+
+// HashSum is only used by library models (never natively).
+func HashSum(kind string, data []byte) []byte { return nil }
